@@ -437,7 +437,8 @@ func resolveIncludePaths(basePath string, includes []ast.Include) []string {
 			resolved = append(resolved, resolvedPath)
 		}
 	}
-	sort.Strings(resolved)
+	// in the order of the include directives: it decides the order in which the
+	// files of the tree are visited, as it does for the loader
 	return resolved
 }
 
